@@ -86,12 +86,40 @@ def _src_key(tier):
     return h.hexdigest()[:16]
 
 
+def repo_src_hash():
+    h = hashlib.sha1()
+    for f in sorted(glob.glob("/repo/src/*.rs")) + ["/repo/Cargo.toml", "/repo/Cargo.lock"]:
+        try:
+            h.update(os.path.basename(f).encode() + b"\0" + open(f, "rb").read())
+        except OSError:
+            pass
+    return h.hexdigest()
+
+
+def pinned_src_hash():
+    try:
+        return json.load(open(os.path.join(VERIF, "checker", "pinned_src.json")))["sha1"]
+    except (OSError, ValueError, KeyError):
+        return None
+
+
 def fuzz_lines(tier, seed):
     """Coverage-guided search for inputs (libFuzzer via cargo-fuzz, CMP-guided): operation sequences that
     reach new code in /repo's working tree, found once per source state and shared by all
     properties' checks.  Returns (rendered op lines, info).  The corpus is only a source of *cases*: each
     runs through implementation, model and judge like every generated case.  Call with the lock held."""
     info = {"engine": "libFuzzer (libfuzzer-sys; sancov edges, counters and compare tracing on the libmctp crate only; value profile), target harness/fuzz/fuzz_targets/ops.rs"}
+    seeds_dir = os.path.join(VERIF, "corpus", "fuzz-seeds")
+    if tier == "quick" and not os.environ.get("VERIF_FUZZ_ALWAYS") and os.path.isdir(seeds_dir) and repo_src_hash() == pinned_src_hash():
+        # the search result for exactly this source is committed: corpus/fuzz-seeds is the reduced corpus of a long
+        # search on the pinned tree (one input per covered feature).  Replaying it is the cache hit; a live search
+        # is only needed for a source state that has not been searched yet.
+        rc, out = sh([EXEC_BIN, "--render", seeds_dir])
+        lines = [l for l in out.splitlines() if l.strip()] if rc == 0 else []
+        info.update({"status": "ok", "lines": len(lines), "seed_inputs": len(os.listdir(seeds_dir)),
+                     "note": "source identical to the pinned tree (checker/pinned_src.json): the committed corpus of the search on this "
+                             "source is replayed; a live search runs for every other source state and in the thorough tier"})
+        return lines, info
     key = _src_key(tier)
     cdir = os.path.join(FUZZ_CORPUS, key)
     mind = os.path.join(cdir, "min")
